@@ -407,7 +407,9 @@ def run_spans(ck):
     ck.coverage["rule"] += ("span requests: OTLP protobuf (1-3 resources x 0-2 scopes x 0-3 spans, attributes of every AnyValue kind nested to depth %s, "
                             "repeated and special keys, zero/max ids, end<start and >2^63 times, missing resource, missing value), Zipkin JSON array and NDJSON "
                             "(1-4 spans, shuffled fields, 1-37 digit ids, string/number times incl. the *1000 overflow edge, endpoints, string and non-string "
-                            "tags, repeated fields, one malformed field in 20%%), six Zipkin requests of 40-320 spans with bodies of 74-180 kB (beyond the decoders' 64 KiB "
+                            "tags, repeated fields, one malformed field in 20%% incl. integers above 2^64, exponent/fraction forms and microseconds whose nanoseconds leave int64), "
+                            "seven requests around and above the 1 MiB flush threshold (accumulated size exactly 1 MiB, 1 MiB + 1, 2.4 MiB in both Zipkin framings and OTLP, "
+                            "three of them failing after a flush), six Zipkin requests of 40-320 spans with bodies of 74-180 kB (beyond the decoders' 64 KiB "
                             "read buffers) in both framings; every body is delivered to the parser either in one piece (35%%), byte by byte (10%%), in 1..1500-byte "
                             "(40%%) or 1..64-byte (15%%) Reads; for 40%% of the requests the insert step is run as after a failed insert (ProcessRequest twice on the same request "
                             "object, the second block judged); each request goes through the real parser, every produced row through the real "
@@ -415,6 +417,8 @@ def run_spans(ck):
     ck.extra["input_distribution"] = hist
     ck.extra["requests_with_retried_insert"] = sum(1 for c in cases if c.get("retry"))
     ck.extra["delivery_modes"] = {SEG[k]: sum(1 for c in cases if c.get("seg_mode", 0) == k) for k in SEG}
+    ck.extra["requests_answered_in_several_responses"] = sum(1 for c in cases if len(c.get("resp") or []) > 1)
+    ck.extra["requests_failing_after_a_flush"] = sum(1 for c in cases if flushed_error(c))
     ck.extra["bodies_over_64KiB"] = sum(1 for c in cases if c.get("body_len", 0) > 65536)
     ck.extra["accepted_requests"] = sum(1 for c in cases if not c["err"])
     ck.extra["rows_read_back"] = sum(len(c["read"] or []) for c in cases)
@@ -463,12 +467,14 @@ def run(ck):
         run_replay(ck)
         return
     ck.trusted += [
-        "C06: protobuf and JSON (de)serialisation (proto.Marshal/Unmarshal, jx, fastjson) are not modelled: the payload is an abstract value; "
-        "the correspondence decodes the real payload bytes and compares the decoded value",
+        "C06: the OTLP payload is concrete (SpansWire.enc_span = proto.Marshal byte for byte on every stored payload of the run, dec_span (enc_span s) = s "
+        "proved); UTF-8 validation of protobuf strings and span fields the writer never sets (events, links, status, trace_state, flags) are not modelled; the "
+        "Zipkin payload (the element's own text) and its parsing by jx / fastjson stay abstract: the correspondence compares the decoded value",
         "C06: rows are observed as the ch-go columns (by column name) that the real insert services' AcquireColumns/ProcessRequest build from the "
         "parsers' output, and replayed as database rows to the read path; block transport and ClickHouse storage are not modelled (a stored row is "
-        "assumed to be read back as written); the Date column is computed with zone offset 0 (UTC); requests above 1 MiB (mid-request flush) are not generated",
-        "C06: ids are 16/8 bytes wide and present (requests violating this belong to C05/C12); JSON objects have no repeated member names in the theorems' domain",
+        "assumed to be read back as written); the Date column is computed with zone offset 0 (UTC)",
+        "C06: ids are 16/8 bytes wide and present (requests violating this belong to C05/C12); JSON objects have no repeated member names in the theorems' domain; "
+        "doubles are multiples of 1/8 below 2^53 (exact in binary and in six decimals)",
     ]
     ck.coq_props()
     run_spans(ck)
